@@ -859,12 +859,15 @@ def _drops_pending(F, path):
 
 
 _hdp_cache = {}
+from tc.util import register_cache as _reg
+_reg(_hdp_cache)
 
 
 def _helper_drops_pending(F, name):
-    if name in _hdp_cache:
-        return _hdp_cache[name]
-    _hdp_cache[name] = False
+    key = (id(F), name)
+    if key in _hdp_cache:
+        return _hdp_cache[key]
+    _hdp_cache[key] = False
     hb = F.real_body(name)
     res = False
     if hb is not None:
@@ -874,7 +877,7 @@ def _helper_drops_pending(F, name):
                     res = True
         except Exception:
             res = False
-    _hdp_cache[name] = res
+    _hdp_cache[key] = res
     return res
 
 
